@@ -45,8 +45,11 @@ def analyse(seed):
     y = [v + (3.0 if t % 2 else -3.0) * (t < n // 2) for t, v in enumerate(y)]
   reuse = r2.random() < 0.5
   if reuse:
-    # the object has a history: another pair of series (of another length) was analysed on it first
-    x0, y0 = series(r2, r2.choice([n + 7, max(5, n // 2), 90, 12]))
+    # the object has a history: another pair of series (of another length, or of the same length at another
+    # noise level) was analysed on it first
+    x0, y0 = series(r2, r2.choice([n + 7, max(5, n // 2), 90, 12, n, n]))
+    if len(y0) == n:
+      y0 = [v * 7.0 + (11.0 if t % 3 else -5.0) for t, v in enumerate(y0)]
     d = D.TBRMMDiagnostics(np.array(y0), par)
     d.x = np.array(x0)
     float(d.required_impact)
